@@ -30,7 +30,7 @@ where
     Ok(l_shared + l_indiv)
 }
 
-fn read_site_length<R>(reader: &mut R) -> io::Result<usize>
+pub(super) fn read_site_length<R>(reader: &mut R) -> io::Result<usize>
 where
     R: Read,
 {
@@ -68,7 +68,7 @@ where
     }
 }
 
-fn read_samples_length<R>(reader: &mut R) -> io::Result<usize>
+pub(super) fn read_samples_length<R>(reader: &mut R) -> io::Result<usize>
 where
     R: Read,
 {
